@@ -532,8 +532,8 @@ func (r *Runner) assignVal(name string, prev expand.Variable, as *syntax.Assign,
 			// TODO
 			return name, prev
 		default:
-			// Should only happen if we forgot a case above.
-			panic(fmt.Sprintf("unexpected conversion of kind %d", prev.Kind))
+			// e.g. a name reference which did not resolve to a variable;
+			// like an unset variable, start from an empty array.
 		}
 	}
 	// Evaluate values for each array element. An explicit index like
